@@ -43,6 +43,10 @@ func GenProduce(t *rapid.T, emptyBias int) Op {
 	var st pw.Step
 	if rapid.IntRange(0, 99).Draw(t, "empty?") < emptyBias {
 		st = pw.GoodStep()
+	} else if rapid.IntRange(0, 4).Draw(t, "repeat?") == 0 {
+		// a transaction list that other blocks of the history carry as well (e.g. a client re-sending
+		// the same transaction): same data commitment at different heights
+		st = pw.GoodStep([]byte("resent-tx-" + rapid.SampledFrom([]string{"a", "b"}).Draw(t, "which")))
 	} else {
 		st = pw.GoodStep(GenTxs(t)...)
 	}
